@@ -198,6 +198,9 @@ def convert(ev):
     if lab == 'q.list':
         return (tid, ('LDqList', 0), cval(v))
     if lab.startswith('bg.set:'):
+        if isinstance(v, (list, tuple)) and len(v) == 2 and v[0] == 'ref' and lab[7:] and not (lab[7:].startswith('n') and lab[7:][1:].isdigit()):
+            # a name the agent gave itself, seen where it enters the directory (the run may be cut short before spawn_job returns it)
+            SELF_NAMES[lab[7:]] = v[1]
         return (tid, ('LDictSet', 0, key_of(lab[7:]), cval(v)), unit)
     if lab.startswith('bg.del:'):
         return (tid, ('LDictDel', 0, key_of(lab[7:])), cval(v) if raised else unit)
